@@ -36,7 +36,6 @@ func verif_harness_C13_roundrobin() {
 		}
 	}
 	rr := NewRoundRobinDecoder(decs...)
-
 	next := make([]int, D) // next expected index per input
 	got := 0
 	for n := 0; n <= D*Lmax; n++ {
@@ -99,4 +98,53 @@ func verif_harness_C13_roundrobin_errors() {
 	}
 	verif_assert(seen == 2, "C13.rr.healthy-inputs-fully-delivered")
 	verif_assert(last != nil, "C13.rr.error-after-all-failed")
+}
+
+// C13 — one call from an arbitrary state (any number of earlier calls): the
+// rotation counter private to the closure is set to an arbitrary 64-bit value
+// (including the values just before any narrower counter would wrap around),
+// each of the D inputs either has a record left or is exhausted. The call
+// returns a record iff some input has one — taken
+// from an input that has one — and reports the end only when all are exhausted.
+//
+//verif:harness mode=int param.D=2..3 thorough.param.D=2..6 unwind=64 replay=none timeout=30000
+func verif_harness_C13_roundrobin_step() {
+	if !verif_is_symbolic_run() {
+		return
+	}
+	D := verif_param("D")
+	has := make([]bool, D)
+	tried := make([]int, D)
+	decs := make([]Decoder, D)
+	any := false
+	for i := 0; i < D; i++ {
+		i := i
+		has[i] = verif_nondet_bool("has_record")
+		any = verif_or(any, has[i])
+		decs[i] = func(r *Result) error {
+			tried[i]++
+			if has[i] {
+				r.Seq = uint64(i)
+				r.Attack = "x"
+				return nil
+			}
+			return io.EOF
+		}
+	}
+	rr := NewRoundRobinDecoder(decs...)
+	// fewer than 2^63 earlier calls (three centuries at one call per
+	// nanosecond): the 64-bit counter itself never wraps in a real history
+	calls := verif_nondet_u64("rotation_counter")
+	verif_assume(calls < 1<<63)
+	verif_closure_set_int(rr, "seq", calls)
+	var r Result
+	err := rr.Decode(&r)
+	if any {
+		verif_assert(err == nil, "C13.rr.step.no-end-while-an-input-has-records")
+		if err == nil {
+			verif_assert(r.Attack == "x" && int(r.Seq) < D && has[int(r.Seq)], "C13.rr.step.record-from-an-input-that-has-one")
+		}
+	} else {
+		verif_assert(err == io.EOF, "C13.rr.step.end-when-all-exhausted")
+	}
 }
